@@ -84,12 +84,16 @@ func checkC06(c *Ctx) (int, error) {
 			}
 			cs := &WCase{ID: fmt.Sprintf("C06w-%d", id), Set: set, Tag: fmt.Sprintf("%s|hdr%05b", settingTag(set), bits)}
 			id++
-			total := 0
+			total, stream := 0, 0
 			for _, o := range h {
 				op := Op{Op: o.Op}
 				if o.Op == "W" {
-					op.N = concreteSize(rng, set, o.N)
+					op.N = concreteSize(rng, set, o.N, stream)
 					total += op.N
+					stream += op.N
+				}
+				if o.Op == "R" {
+					stream = 0
 				}
 				cs.Ops = append(cs.Ops, op)
 			}
@@ -121,6 +125,7 @@ func checkC06(c *Ctx) (int, error) {
 				var dict *DataSpec
 				if kind == "gzip" {
 					e.Hdr = headerPattern(rng, bits, bits%2 == 1)
+					e.FHCRC = (bits+k)%2 == 0
 				} else if bits%2 == 0 {
 					dict = &DataSpec{Class: "text", Seed: int64(bits), Len: 50 + bits*30}
 					e.Dict = dict
@@ -172,6 +177,7 @@ func checkC07(c *Ctx) (int, error) {
 				g.Hdr.Extra = g.Hdr.Extra[:20]
 			}
 		}
+		g.FHCRC = i%4 == 1
 		gs := RStream{Enc: []EncSpec{g}}
 		if i%3 == 2 {
 			gs.Enc = append(gs.Enc, EncSpec{Impl: "std", Kind: "gzip", Level: 6, Window: 32768, Data: randData(rng, 1+rng.Intn(30))})
